@@ -10,6 +10,7 @@ import (
 	"runtime/debug"
 	"strings"
 	"sync"
+	"syscall"
 
 	"github.com/ethereum/go-ethereum/core/rawdb"
 	"github.com/ethereum/go-ethereum/ethdb"
@@ -342,6 +343,12 @@ func prologue() {
 		// about to continue (measured: most C22 seeds diverged between GOMAXPROCS
 		// values). The collector therefore runs between runs only (runPlan).
 		debug.SetGCPercent(-1)
+		// crash enumeration reopens freezers thousands of times per process
+		var lim syscall.Rlimit
+		if syscall.Getrlimit(syscall.RLIMIT_NOFILE, &lim) == nil && lim.Cur < lim.Max {
+			lim.Cur = lim.Max
+			syscall.Setrlimit(syscall.RLIMIT_NOFILE, &lim)
+		}
 	})
 }
 
